@@ -131,6 +131,21 @@ def correspond(ctx, scale):
                 cs = torch.einsum('h i d, h j d -> h i j', nc, nc)
                 want_orth = float((cs ** 2).sum() / (codes.shape[0] * codes.shape[1] ** 2) - 1 / codes.shape[1])
             want_total = cw * want_commit + ow * want_orth
+        # per-call option `indices=`: the call returns the cross-entropy of the (negative distances | similarities) against the SUPPLIED target codes
+        if heads == 1 and not masked and ci % 2 == 0:
+            tgt = torch.randint(0, K, (b, nn_))
+            try:
+                with torch.no_grad():
+                    _, ce_got = vq(x, indices=tgt, freeze_codebook=True)
+                    c0 = vq._codebook.embed[0]
+                    xi = xin.reshape(b * nn_, d)
+                    lg = (xi @ c0.T) if cosine else -torch.cdist(xi[None], c0[None])[0]
+                    ce_want = float(-torch.log_softmax(lg.double(), dim=-1)[torch.arange(b * nn_), tgt.reshape(-1)].mean())
+                dist['vq_ce_to_supplied_indices'] = dist.get('vq_ce_to_supplied_indices', 0) + 1
+                if not close(ce_got, ce_want, 1e-4):
+                    fail(f'vq:supplied-indices-ce:cos={cosine}', f'VectorQuantize({kw}): loss returned for supplied indices {float(ce_got):.6g} != cross-entropy of the negative distances against them {ce_want:.6g}', dict(kw=kw))
+            except Exception as ex:
+                fail(f'vq:supplied-indices:exception:{type(ex).__name__}', f'VectorQuantize({kw}) with indices=: {ex!r}', dict(kw=kw))
         ev += 1
         dist['vq'] += 1
         dist['vq_ce'] += ce
